@@ -32,7 +32,7 @@ var sets = map[string][]target{
 	},
 	"C03": {
 		{"pkg/task/queue/task_queue.go", []string{"TaskQueue.Start", "TaskQueue.waitForTask", "TaskQueue.withLock", "TaskQueue.AddLast", "TaskQueue.Filter", "TaskQueue.Iterate"}},
-		{"pkg/task/queue/queue_set.go", []string{"TaskQueueSet.DoWithLock", "TaskQueueSet.Stop"}},
+		{"pkg/task/queue/queue_set.go", []string{"TaskQueueSet.DoWithLock", "TaskQueueSet.Stop", "TaskQueueSet.Iterate", "TaskQueueSet.GetByName", "TaskQueueSet.GetMain", "TaskQueueSet.Add", "TaskQueueSet.NewNamedQueue"}},
 		{"pkg/shell-operator/manager_events_handler.go", []string{"ManagerEventsHandler.Start"}},
 	},
 }
@@ -109,7 +109,7 @@ func walkFunc(fd *ast.FuncDecl, out *[]string) {
 					}
 				}
 			case "putEvent", "enableKubeEventCb", "getCachedObjects", "Store", "RangeValue", "Range", "start", "Handler",
-				"waitForTask", "addAfter", "remove", "addFirst", "addLast", "withLock", "withRLock", "Done", "cancel", "AddLast", "DoWithLock":
+				"waitForTask", "addAfter", "remove", "addFirst", "addLast", "withLock", "withRLock", "Done", "cancel", "AddLast", "DoWithLock", "GetMain", "GetByName":
 				*out = append(*out, "  call "+last)
 			}
 		case *ast.SelectorExpr:
